@@ -7,6 +7,7 @@ extra = dict(a.split("=", 1) for a in sys.argv[5:])
 D.build([fl])
 findings = D.load_findings()
 opts = {"faults": faults}; opts.update(extra)
+if opts.get("knob.leakcheck"): D.SLOW_UNWIND[0] = True
 if "avoid" not in opts:
     av = D.avoid_tokens(findings, "NONE")
     if av: opts["avoid"] = ",".join(sorted(av))
@@ -19,6 +20,9 @@ def loop(k):
             s = seeds.pop()
         cmd = "seed %s %d %s" % (profile, s, " ".join("%s=%s" % kv for kv in sorted(opts.items())))
         res, crash = w.run(cmd, 120)
+        if res and res.get("leak") and "leak of" not in res["leak"]:
+            txt = D.read_san_logs(w.logprefix, w.proc.pid)
+            if txt: res["leak"] = txt
         vs = []
         if crash is not None or (res and (res.get("violations") or res.get("leak") or res.get("harness_error"))):
             text = D.emit_plan(fl, profile, s, opts)
